@@ -158,6 +158,10 @@ class Kernel:
 
     # ------------------------------------------------------------ logging
     def ev(self, *a):
+        if self.aborting:
+            # threads unwind concurrently once a run is aborted: their last events would be
+            # logged in an order the kernel no longer decides, so they are not part of the log
+            return self.seq
         self.seq += 1
         rec = (self.seq, round(self.now, 6)) + a
         self.h.update(repr(rec).encode())
